@@ -46,6 +46,7 @@ def run(ctx: Ctx):
     for mod in (B, Q):
         check_main(ctx, repo.func(f"{mod}.main"))
     check_quasm(ctx, repo.func(f"{Q}.convert_to_quasm"), repo.func(f"{Q}.main"))
+    ctx.section(check_discovery, ctx, repo.func("tools.utils.parse_file"))
     fl = repo.func("tools.tools.find_last_qlassf")
     r = q.returns(fl)
     p = fl.params[0]
@@ -241,3 +242,43 @@ def check_quasm(ctx: Ctx, fi: FuncInfo, main: FuncInfo):
     cs = [c for c in q.calls(main.node) if (dotted(c.func) or "") == "convert_to_quasm"]
     ok = len(cs) == 1 and {k.arg: norm(k.value) for k in cs[0].keywords} == {"compiler": "compiler", "version": "version"}
     ctx.check(ok, "DP-TABLE", main, "options reach convert_to_quasm", "", "the parsed options are not forwarded", main.node)
+
+
+def check_discovery(ctx: Ctx, pf: FuncInfo):
+    """MP-entrypoint (discovery): the functions a script offers are ALL the QlassF members of its module - built by a
+    decorator, from a source string or by binding a template alike.  The member filter is the class test alone."""
+    from ..normalize import _expr_of_body
+
+    gm = [c for c in q.calls(pf.node) if (dotted(c.func) or "").split(".")[-1] == "getmembers"]
+    if len(gm) != 1:
+        ctx.undecided(pf.short, f"{len(gm)} getmembers(...) calls: the members of the script module are not enumerated in a form the tables know")
+        return
+    holder = pf.pm.get(gm[0])
+    pred = None
+    var = None
+    if isinstance(holder, ast.Call) and isinstance(holder.func, ast.Name) and holder.func.id == "filter" and len(holder.args) == 2 and holder.args[1] is gm[0]:
+        f = holder.args[0]
+        if isinstance(f, ast.Lambda) and len(f.args.args) == 1:
+            pred, var = f.body, f.args.args[0].arg
+        elif isinstance(f, ast.Name):
+            nd = [n for n in ast.walk(pf.node) if isinstance(n, ast.FunctionDef) and n.name == f.id]
+            if nd and len(nd[0].args.args) == 1:
+                pred, var = _expr_of_body(nd[0].body), nd[0].args.args[0].arg
+    elif isinstance(holder, ast.comprehension):
+        comp = pf.pm.get(holder)
+        if len(holder.ifs) == 1 and isinstance(holder.target, (ast.Name, ast.Tuple)):
+            pred = holder.ifs[0]
+            var = norm(holder.target) if isinstance(holder.target, ast.Name) else None
+            if var is None:
+                var = "(" + ",".join(norm(e) for e in holder.target.elts) + ")"
+    if pred is None:
+        ctx.undecided(pf.short, "the member filter is neither filter(<predicate>, getmembers(..)) nor a comprehension with one condition")
+        return
+    t = norm(pred).replace(" ", "")
+    conj = pred.values if isinstance(pred, ast.BoolOp) and isinstance(pred.op, ast.And) else [pred]
+    is_cls = [c for c in conj if isinstance(c, ast.Call) and norm(c.func) == "isinstance" and len(c.args) == 2 and "QlassF" in norm(c.args[1])]
+    others = [c for c in conj if c not in is_cls]
+    if not is_cls:
+        ctx.undecided(pf.short, f"member filter `{t[:80]}` does not test for QlassF")
+    else:
+        ctx.check(not others, "MP-entrypoint", pf, "every QlassF member of the script is offered", t[:60], f"members are also required to satisfy {[norm(o)[:70] for o in others]}: compiled functions of the script that fail it (built from a source string, bound from a template, aliased) silently disappear - the tool prints nothing or picks another function", gm[0])
